@@ -83,7 +83,9 @@ def unit_cases(rng, n):
         if k == 0:
             s = bytes(1 + rng.below(127) for _ in range(ln))
         elif k == 1:
-            s = bytearray(1 + rng.below(127) for _ in range(ln)); s[rng.below(ln)] = rng.choice([0, 0x80, 0xff, 0x7f, 1])
+            s = bytearray(1 + rng.below(127) for _ in range(ln))
+            if ln:
+                s[rng.below(ln)] = rng.choice([0, 0x80, 0xff, 0x7f, 1])
         else:
             s = rng.bytes(ln)
         add(s)
